@@ -1,11 +1,16 @@
 """C06 — ThroughputCalculator counts every operation exactly once, however samples are batched.
 
-One case = one sample stream (1–3 tasks, several clients, out-of-order arrival across clients) cut into
-successive post-processing batches; the batches are fed to ONE real `driver.ThroughputCalculator`
-through successive `calculate()` calls and to the Lean model `Throughput.calculate` (variant `current`).
-Returned tuples are compared exactly (`float.as_integer_ratio`).  The direct oracle recomputes, with
+Two families of streams, one oracle:
+* calculator streams: one sample stream (1–3 tasks, several clients, out-of-order arrival across clients) cut into
+  successive batches that are fed to ONE real `driver.ThroughputCalculator` through successive `calculate()` calls
+  and to the Lean model `Throughput.calculate` (variant `current`);
+* driver streams: the same kind of samples, with realistic per-client `percent_completed`, shipped worker by worker
+  into a real `driver.Driver` buffer (`update_samples`) with `post_process_samples()` runs at arbitrary points, i.e.
+  the real `SamplePostprocessor` that owns the calculator for the whole race writing into a real
+  `InMemoryMetricsStore`; the throughput records of every run are compared with the Lean model `Throughput.driverRun`.
+Returned tuples / records are compared exactly (`float.as_integer_ratio`).  The direct oracle recomputes, with
 `Fraction`s and without any bucket logic, what every emitted value has to be: (sum of the operations of
-all samples fed so far except those sorted after the emitting sample in the current call, each once) /
+all samples fed so far except those sorted after the emitting sample in the current batch, each once) /
 (largest elapsed time among them).
 """
 from fractions import Fraction
@@ -14,10 +19,12 @@ from harness.framework import Stream, HarnessError
 
 PROPERTY = "C06"
 RULE = ("sample streams of 1-3 tasks x 1-4 clients (warm-up then normal samples, dyadic / integer / arbitrary double times, clients lagging "
-        "behind each other, optional equal-but-distinct Task objects) x 3 cuttings into calculate() calls on ONE calculator (all at once, one "
-        "sample per call, random cuts with empty calls) + a final far-future flush sample per task that makes the carried state observable "
-        "in the returned tuples; a case is non-trivial when at least one call starts with carried-over samples; signature = (model branch "
-        "tags, cutting mode, number of tasks, oracle outcome)")
+        "behind each other, per-client percent_completed: iteration/time/runner based or None, last sample bumped to 1.0, optional equal-but-distinct "
+        "Task objects) x 3 cuttings: (a) into calculate() calls on ONE calculator (all at once, one sample per call, random cuts with empty calls), "
+        "(b) into worker shipments and post-processing runs of ONE Driver/SamplePostprocessor/metrics store (run at the end only, after every shipment, "
+        "random incl. runs with an empty buffer; boundary stream: every placement of one or two runs between two clients' samples) + a final far-future "
+        "flush sample per task that makes the carried state observable; a case is non-trivial when at least one call starts with carried-over samples; "
+        "signature = (model branch tags, cutting mode, number of tasks, oracle outcome[, samples after a batch with a 100 % sample])")
 TRUSTED = [
     "IEEE-754 model RallyModel/Dbl.lean for `a - b`, `float(count)` and `count / interval` (validated bit-for-bit against CPython; the floats "
     "stream re-validates `-` and `/` on arbitrary doubles through every emitted value)",
@@ -99,7 +106,7 @@ def build_sample(s, copy):
         s["ops"],
         s["unit"],
         num(s["period"], ai),
-        None,
+        s.get("pc"),
     )
 
 
@@ -340,7 +347,24 @@ def gen_task_queues(rng, k, exact, mode, int_times, big_ops):
             if mode == "pass" or (mode == "mixed" and rng.random() < 0.5):
                 tput = fs(rng.choice([0, 8000, 12.5, 0.1, 1e-3, 123456.789, 3]))
             q.append({"task": k, "client": c, "abs": fs(a), "rs": fs(rs), "ts": fs(ts), "period": fs(period), "ops": ops, "unit": unit,
-                      "normal": i >= warm, "tput": tput, "int": int_times})
+                      "normal": i >= warm, "tput": tput, "int": int_times, "pc": None})
+        # percent_completed is per CLIENT: iteration based ((i+1)/n), time based (elapsed/period, may stop below 100 %),
+        # reported by the runner, or None (eternal task); the last sample is bumped to 1.0 when the client completes
+        # (iterations exhausted, runner completed, or external completion while other clients are still running)
+        pmode = rng.choice(["iterations", "iterations", "time", "runner", "none"])
+        horizon = e * Fraction(rng.choice([1, 1, 5, 4]), rng.choice([1, 1, 4, 3])) if e > 0 else Fraction(1)
+        for i, smp in enumerate(q):
+            if pmode == "iterations":
+                pc = (i + 1) / n
+            elif pmode == "time":
+                pc = min(1.0, float(Fraction(smp["period"]) / horizon))
+            elif pmode == "runner":
+                pc = round(0.05 + 0.9 * (i + 1) / n, 3) if rng.random() < 0.8 else None
+            else:
+                pc = None
+            smp["pc"] = pc
+        if q and rng.random() < (0.9 if pmode in ("runner", "none") else 0.4):
+            q[-1]["pc"] = 1.0
         queues.append(q)
     return queues, T0
 
@@ -393,7 +417,7 @@ def flush_samples(rng, stream, tmax, int_times):
     for k, s in seen.items():
         f = dict(s)
         a = tmax + 64 + k
-        f.update({"abs": fs(a), "rs": fs(100000 + k), "ts": "0/1", "period": fs(Fraction(1000)), "ops": 1, "normal": True, "client": 99})
+        f.update({"abs": fs(a), "rs": fs(100000 + k), "ts": "0/1", "period": fs(Fraction(1000)), "ops": 1, "normal": True, "client": 99, "pc": 1.0})
         if s["tput"] is not None:
             f["tput"] = fs(1)
         out.append(f)
@@ -529,6 +553,242 @@ def run_case(ctx, case):
     ctx.sig([tags, case.get("cut"), case.get("ntasks"), outcome], nontrivial="carry" in tags)
 
 
+# ---------------------------------------------------------------------------------------------
+# the owner of the calculator: Driver.update_samples / post_process_samples -> SamplePostprocessor -> metrics store
+# ---------------------------------------------------------------------------------------------
+def gen_driver_cases(rng, exact=True, pass_prob=0.0):
+    """one race fragment: clients spread over workers, every worker ships its samples in chunks (UpdateSamples), the
+    driver post-processes at arbitrary points (timer, join point): 3 placements of the runs for the same shipments"""
+    ntasks = rng.choice([1, 1, 2, 3])
+    int_times = exact and rng.random() < 0.1
+    queues = []
+    for k in range(ntasks):
+        mode = "pass" if rng.random() < pass_prob else "calc"
+        qs, _ = gen_task_queues(rng, k, exact, mode, int_times, False)
+        queues += qs
+    nworkers = rng.choice([1, 2, 2, 3])
+    workers = [[] for _ in range(nworkers)]
+    for q in queues:
+        workers[rng.randrange(nworkers)] += q  # a worker runs several clients (of several tasks)
+    shipments = []
+    for w in workers:
+        w.sort(key=lambda smp: Fraction(smp["abs"]))  # a worker's sampler queue is in completion order
+        i = 0
+        while i < len(w):
+            n = rng.choice([1, 1, 2, 3, 5, 8])
+            shipments.append(w[i:i + n])
+            i += n
+    # arrival order of the shipments at the driver: per worker in order, workers interleaved with lags
+    order = merge_queues(rng, [[{"abs": sh[0]["abs"], "sh": sh} for sh in shipments if sh[0] in w] for w in workers])
+    ships = [o["sh"] for o in order]
+    stream = [smp for sh in ships for smp in sh]
+    if not stream:
+        return
+    tmax = max(Fraction(smp["abs"]) for smp in stream)
+    flush = flush_samples(rng, stream, Fraction(int(tmax)), int_times)
+    downsample = rng.choice([1, 1, 1, 2, 3])
+    copies = rng.random() < 0.3
+    for placement in ("end-only", "every-shipment", "random"):
+        events = []
+        p = rng.choice([0.1, 0.3, 0.6])
+        for sh in ships:
+            events.append(sh)
+            if placement == "every-shipment" or (placement == "random" and rng.random() < p):
+                events.append("pp")
+                while placement == "random" and rng.random() < 0.15:
+                    events.append("pp")  # nothing shipped in between
+        events.append("pp")  # join point: everything shipped so far is post-processed
+        events.append(flush)
+        events.append("pp")
+        yield {"exact": exact or int_times, "copies": copies, "cut": placement, "ntasks": ntasks, "downsample": downsample, "events": events}
+
+
+def gen_driver_dyadic(ctx):
+    n = 0
+    while n < ctx.budget:
+        for case in gen_driver_cases(ctx.rng, exact=True, pass_prob=0.1):
+            if n >= ctx.budget:
+                break
+            n += 1
+            yield case
+
+
+def gen_driver_floats(ctx):
+    n = 0
+    while n < ctx.budget:
+        for case in gen_driver_cases(ctx.rng, exact=False):
+            if n >= ctx.budget:
+                break
+            n += 1
+            yield case
+
+
+def gen_driver_boundary(ctx):
+    """two clients of one task, in-order samples, EVERY placement of one or two post-processing runs (the window in which
+    one client has reported 100 % and the other has not is hit by construction), x progress modes"""
+    rng = ctx.rng
+    n = 0
+
+    def S(c, a, period, pc, ops=10, normal=True, task=0):
+        S.n += 1
+        return {"task": task, "client": c, "abs": fs(Fraction(a)), "rs": fs(Fraction(S.n)), "ts": "0/1", "period": fs(Fraction(period)), "ops": ops,
+                "unit": "docs", "normal": normal, "tput": None, "int": False, "pc": pc}
+
+    S.n = 0
+    H = Fraction(1, 2)
+    while n < ctx.budget:
+        nA, nB = rng.choice([1, 2, 3]), rng.choice([2, 3, 4])
+        step = rng.choice([H, Fraction(1), Fraction(5, 4)])
+        A = [S(0, 100 + (i + 1) * step, (i + 1) * step, (i + 1) / nA if rng.random() < 0.8 else None, normal=rng.random() < 0.8 or i > 0) for i in range(nA)]
+        B = [S(1, 100 + (i + 1) * step + H / 2, (i + 1) * step + H / 2, (i + 1) / nB, ops=rng.choice([1, 10, 100])) for i in range(nB)]
+        if rng.random() < 0.5:
+            A[-1]["pc"] = 1.0
+        stream = sorted(A + B, key=lambda smp: Fraction(smp["abs"]))
+        fl = [S(99, 100 + 64, 1000, 1.0, ops=1)]
+        L = len(stream)
+        cuts = [(i,) for i in range(L + 1)] + [(i, j) for i in range(L + 1) for j in range(i, L + 1)]
+        rng.shuffle(cuts)
+        for cut in cuts[:12]:
+            if n >= ctx.budget:
+                return
+            n += 1
+            events, prev = [], 0
+            for c in cut:
+                for smp in stream[prev:c]:
+                    events.append([smp])
+                events.append("pp")
+                prev = c
+            for smp in stream[prev:]:
+                events.append([smp])
+            events += ["pp", fl, "pp"]
+            yield {"exact": True, "copies": False, "cut": "all-placements", "ntasks": 1, "downsample": 1, "events": events}
+
+
+_STORE_CFG = None
+
+
+def _new_store():
+    import datetime
+    from esrally import config, metrics
+
+    cfg = config.Config()
+    cfg.add(config.Scope.application, "system", "env.name", "c06")
+    cfg.add(config.Scope.application, "track", "params", {})
+    store = metrics.InMemoryMetricsStore(cfg)
+    store.open("c06-race", datetime.datetime(2016, 1, 31), "track", "challenge", "car", create=True)
+    return cfg, store
+
+
+def run_driver_case(ctx, case):
+    """real Driver buffer + real SamplePostprocessor + real InMemoryMetricsStore; the records of every post-processing run
+    are compared with the Lean model (`driverRun`) and judged by the same direct oracle as the calculator streams"""
+    from esrally.driver import driver
+    from esrally import metrics
+
+    cfg, store = _new_store()
+    spy = []
+    orig = store.put_value_cluster_level
+
+    def put_value_cluster_level(*a, **kw):
+        spy.append((a, kw))
+        return orig(*a, **kw)
+
+    store.put_value_cluster_level = put_value_cluster_level
+    d = driver.Driver(None, cfg)
+    d.metrics_store = store
+    d.sample_post_processor = driver.SamplePostprocessor(store, case.get("downsample", 1), {}, {})
+    orc = Oracle(ctx, case)
+    names = {}
+    model_events, impl_runs = [], []
+    pending_batch = []  # reference semantics of the buffer: everything shipped since the previous run
+    ci = 0
+    for ei, ev in enumerate(case["events"]):
+        if ev != "pp":
+            objs = [build_sample(smp, case.get("copies", False) and (i + ei) % 2 == 1) for i, smp in enumerate(ev)]
+            ms = []
+            for smp, o in zip(ev, objs):
+                names[o.task.name] = smp["task"]
+                ms.append({"task": smp["task"], "abs": fs(o.absolute_time), "rel": fs(o.relative_time), "period": fs(o.time_period), "ops": o.total_ops,
+                           "unit": o.total_ops_unit, "normal": o.sample_type == metrics.SampleType.Normal,
+                           "tput": None if o.throughput is None else fs(o.throughput)})
+            model_events.append(ms)
+            pending_batch += ms
+            d.update_samples(objs)
+            continue
+        model_events.append("pp")
+        n_spy, n_docs = len(spy), len(store.docs)
+        d.post_process_samples()
+        recs = []
+        for a, kw in spy[n_spy:]:
+            if a or kw.get("name") is None:
+                ctx.fail("store-call", "metrics store called positionally / without a name", None, str((a, kw))[:300])
+                continue
+            if kw["name"] != "throughput":
+                continue
+            if kw.get("task") not in names:
+                ctx.fail("task-keys", "throughput record for a task that never had a sample", None, kw.get("task"))
+                continue
+            recs.append([names[kw["task"]], [fs(kw["absolute_time"]), fs(kw["relative_time"]), kw["sample_type"] == metrics.SampleType.Normal,
+                                             canon_value(kw["value"]), kw["unit"]]])
+        # the documents that reached the store are these records
+        tdocs = [doc for doc in store.docs[n_docs:] if doc.get("name") == "throughput"]
+        want_docs = [(f"task-{k}", t[3], t[4], "normal" if t[2] else "warmup") for k, t in recs]
+        got_docs = [(doc.get("task"), canon_value(doc.get("value")), doc.get("unit"), doc.get("sample-type")) for doc in tdocs]
+        if want_docs != got_docs:
+            orc.fail("store-record", f"run {ci}: throughput documents in the metrics store differ from the records handed to it", want_docs[:5], got_docs[:5])
+        impl_runs.append(recs)
+        # oracle: group by task in the order of the batch; no record may belong to a task without samples in the batch
+        groups = []
+        for smp in pending_batch:
+            if smp["task"] not in groups:
+                groups.append(smp["task"])
+        stray = [r for r in recs if r[0] not in groups]
+        if stray:
+            orc.fail("task-keys", f"run {ci}: throughput records for tasks without samples in the batch", groups, stray[:3])
+        if pending_batch:
+            canon = [[k, [r[1] for r in recs if r[0] == k]] for k in groups]
+            orc.step(ci, pending_batch, canon)
+        elif recs:
+            orc.fail("task-keys", f"run {ci}: records although nothing was shipped since the last run", [], recs[:3])
+        pending_batch = []
+        ci += 1
+        if orc.stale_run() >= STALE_CAP and ei + 1 < len(case["events"]):
+            ctx.count("truncated-after-stale-run")
+            break
+    m = ctx.model("throughput", "pp_run", {"events": model_events})
+    if "r" not in m:
+        raise HarnessError(f"model rejected the case: {m}")
+    tags = sorted(m.get("tags", []))
+    if m["r"]["runs"] != impl_runs:
+        for i, (a, b) in enumerate(zip(m["r"]["runs"], impl_runs)):
+            if a != b:
+                ctx.diff(f"post-processing run {i}", a, b)
+                break
+        else:
+            ctx.diff("number of runs", len(m["r"]["runs"]), len(impl_runs))
+    pcs = [smp.get("pc") for ev in case["events"] if ev != "pp" for smp in ev]
+    # input class: a task gets real samples in a batch AFTER the batch in which one of its clients reported 100 %
+    early_done = False
+    done_tasks = set()
+    batch_done = set()
+    for ev in case["events"]:
+        if ev == "pp":
+            done_tasks |= batch_done
+            batch_done = set()
+            continue
+        for smp in ev:
+            if smp["task"] in done_tasks and smp["client"] != 99:
+                early_done = True
+            if smp.get("pc") is not None and smp["pc"] >= 1.0:
+                batch_done.add(smp["task"])
+    ctx.count("cut:" + str(case.get("cut")))
+    ctx.count("runs", ci)
+    ctx.count("samples", len(pcs))
+    ctx.count("outcome:" + orc.outcome)
+    ctx.count("class:samples-after-a-100%-batch" if early_done else "class:no-samples-after-a-100%-batch")
+    ctx.sig([tags, case.get("cut"), case.get("ntasks"), orc.outcome, early_done], nontrivial="carry" in tags)
+
+
 def gen_sort(ctx):
     rng = ctx.rng
     for _ in range(ctx.budget):
@@ -551,4 +811,7 @@ STREAMS = [
     Stream("passthrough", gen_pass, run_case, quick=2000, thorough=40000, shards=4),
     Stream("mixed_malformed", gen_mixed, run_case, quick=1000, thorough=20000, shards=2),
     Stream("stable_sort", gen_sort, run_sort, quick=500, thorough=20000, shards=1),
+    Stream("driver_boundary", gen_driver_boundary, run_driver_case, quick=1200, thorough=12000, shards=4),
+    Stream("driver_dyadic", gen_driver_dyadic, run_driver_case, quick=6000, thorough=120000, shards=16),
+    Stream("driver_floats", gen_driver_floats, run_driver_case, quick=1500, thorough=30000, shards=8),
 ]
